@@ -13,9 +13,11 @@ for line in sys.stdin:
     req = json.loads(line)
     try:
         k = req.get("k", 1)
-        oc = computers.get(k)
-        if oc is None:
-            oc = computers[k] = pk.OligoComputer(k)
+        oc = None
+        if req["op"] in ("header", "oligo", "oligo_batch"):
+            oc = computers.get(k)
+            if oc is None:
+                oc = computers[k] = pk.OligoComputer(k)
         if req["op"] == "header":
             resp = {"ok": oc.get_header()}
         elif req["op"] == "oligo":
@@ -24,6 +26,20 @@ for line in sys.stdin:
         elif req["op"] == "oligo_batch":
             seqs = [bytes.fromhex(s).decode("ascii") for s in req["seqs"]]
             resp = {"ok": oc.vectorise_batch(seqs, req["norm"])}
+        elif req["op"] == "kmers":
+            seq = bytes.fromhex(req["seq"]).decode("utf-8")
+            resp = {"ok": [list(t) for t in pk.KmerGenerator(seq, k)]}
+        elif req["op"] == "mins":
+            seq = bytes.fromhex(req["seq"]).decode("utf-8")
+            resp = {"ok": [list(t) for t in pk.MinimiserGenerator(seq, req["w"], req["m"])]}
+        elif req["op"] == "acgt":
+            resp = {"ok": [pk.KmerGenerator("", k).to_acgt(req["x"]), pk.MinimiserGenerator("", k, k).to_acgt(req["x"])]}
+        elif req["op"] == "cgr":
+            seq = bytes.fromhex(req["seq"]).decode("utf-8")
+            try:
+                resp = {"ok": [list(p) for p in pk.CgrComputer(req["s"]).vectorise_one(seq)]}
+            except ValueError as e:
+                resp = {"value_error": str(e)}
         else:
             resp = {"err": "unknown op"}
     except Exception as e:  # noqa: BLE001
